@@ -1338,21 +1338,21 @@ package collection
 //@   implements Sortable.SortValues
 //@   modifies view(this.associations_)
 //@   uses kmem_perm, ukeys_perm, kobj_perm, nonnil_perm
-//@   hint call1: permof(view(this), old(view(this)))
+//@   hint call SortValues#1: permof(view(this), old(view(this)))
 //@   ensures[C03] permof(view(this), old(view(this))) && samemapping(view(this), old(view(this))) && unchanged(aval)
 //@ func (*catalog_).SortValuesWithRanker
 //@   props C03 C09 C19
 //@   implements Sortable.SortValuesWithRanker
 //@   modifies view(this.associations_), cstate(boundrecv(ranker))
 //@   uses kmem_perm, ukeys_perm, kobj_perm, nonnil_perm
-//@   hint call1: permof(view(this), old(view(this)))
+//@   hint call SortValuesWithRanker#1: permof(view(this), old(view(this)))
 //@   ensures[C03] permof(view(this), old(view(this))) && samemapping(view(this), old(view(this))) && unchanged(aval)
 //@ func (*catalog_).ShuffleValues
 //@   props C03 C09 C19
 //@   implements Sortable.ShuffleValues
 //@   modifies view(this.associations_)
 //@   uses kmem_perm, ukeys_perm, kobj_perm, nonnil_perm
-//@   hint call1: permof(view(this), old(view(this)))
+//@   hint call ShuffleValues#1: permof(view(this), old(view(this)))
 //@   ensures[C03] permof(view(this), old(view(this))) && samemapping(view(this), old(view(this))) && unchanged(aval)
 //@ lemma[C03] rev_sameelems: forall s Seq, t Seq, x U :: { cnt(s, 0, len(s), x), cnt(t, 0, len(t), x) } len(s) == len(t) && (forall i :: 0 <= i && i < len(t) ==> s[i] == t[len(t) - 1 - i]) ==> cnt(s, 0, len(s), x) == cnt(t, 0, len(t), x)
 //@ func (*catalog_).ReverseValues
@@ -1361,7 +1361,7 @@ package collection
 //@   modifies view(this.associations_)
 //@   uses kmem_perm, ukeys_perm, kobj_perm, nonnil_perm, rev_sameelems
 //@   ensures[C03] permof(view(this), old(view(this))) && samemapping(view(this), old(view(this))) && unchanged(aval)
-//@   hint call1: permof(view(this), old(view(this)))
+//@   hint call ReverseValues#1: permof(view(this), old(view(this)))
 
 // ---------------------------------------------------------------- remaining Associative bulk operations (C03, C14, C18)
 
